@@ -8,10 +8,12 @@ import (
 	"strconv"
 	"strings"
 
+	"github.com/cespare/xxhash"
 	dtu "github.com/siglens/siglens/pkg/common/dtypeutils"
 	"github.com/siglens/siglens/pkg/segment/metadata"
 	"github.com/siglens/siglens/pkg/segment/structs"
 	"github.com/siglens/siglens/pkg/segment/writer"
+	"github.com/siglens/siglens/pkg/utils"
 	vtable "github.com/siglens/siglens/pkg/virtualtable"
 )
 
@@ -21,13 +23,14 @@ import (
 //	tn glob <pattern> <name>                                               → impl=<m|n|e> spec=<0|1>
 //	tn sel <org> <qlo> <qhi> N=<name,…> R=<key:org:table:lo:hi,…> U=<…> D=<org:table,…> → rot=<keys> unrot=<keys>
 //	tn del <org> <name> T=<org:name,…>                                     → 0=<names> 1=<names> 2=<names> 3=<names>
+//	tn sid P=<org:index,…> (any int64 org)                                 → fmt=ok c=<position of the first pair with the same stream id>
 //
 // Exec creates REAL virtual tables / aliases / segment metadata in the in-process engine (reset before
 // every case through the overlay hooks) and calls the real ExpandAndReturnIndexNames,
 // FilterSegmentsByTime, FilterUnrotatedSegmentsInQuery, metadata.DeleteVirtualTable, vtable.DeleteVirtualTable.
 func init() {
 	register(&Suite{Name: "tenant", Gen: genTenant, Exec: execTenant,
-		Rule: "index expressions (literals, wildcards at start/middle/end, regex metacharacters, comma lists with spaces, cluster: prefixes, *, empty) over 0..7 tables and 0..4 aliases of 3-4 orgs with prefix-related / shared names; segment selection over ≤ 8 rotated + ≤ 6 unrotated segments with optional index deletions; table-list deletion; distinct = sha1(op line); non-trivial = a wildcard or alias is involved, or ≥ 2 orgs hold segments/tables"})
+		Rule: "index expressions (literals, wildcards at start/middle/end, regex metacharacters, comma lists with spaces, cluster: prefixes, *, empty) over 0..7 tables and 0..4 aliases of 3-4 orgs with prefix-related / shared names; segment selection over ≤ 24 rotated segments (1..7 per hot (org,index), same-named indexes of other orgs adjacent or interleaved) + ≤ 6 unrotated segments with index deletions; stream ids of adversarial (org,index) pairs (digit-prefixed names × multi-digit orgs); table-list deletion; distinct = sha1(op line); non-trivial = a wildcard or alias is involved, or ≥ 2 orgs hold segments/tables"})
 }
 
 var tnOrgs = []int64{0, 1, 2, 3}
@@ -241,6 +244,8 @@ func execTenant(line string) Result {
 		return tnExecSel(f[2:])
 	case "del":
 		return tnExecDel(f[2:])
+	case "sid":
+		return tnExecSid(f[2:])
 	}
 	return Result{Out: "bad-op"}
 }
@@ -714,6 +719,74 @@ func tnExecDel(a []string) Result {
 	return res
 }
 
+// tn sid: the real utils.CreateStreamId on a list of (org, index) pairs. The answer says whether every id has
+// the coded shape <shard>-<org>-<xxhash(index)> and which pairs share an id (shard aside).
+func tnExecSid(a []string) Result {
+	if len(a) != 1 {
+		return Result{Out: "bad-op"}
+	}
+	pl, ok := tnList("P", a[0])
+	if !ok {
+		return Result{Out: "bad-op"}
+	}
+	type pair struct {
+		org   int64
+		index string
+	}
+	var ps []pair
+	for _, s := range pl {
+		p := strings.Split(s, ":")
+		if len(p) != 2 {
+			return Result{Out: "bad-op"}
+		}
+		o, err := strconv.ParseInt(p[0], 10, 64)
+		n, okn := tnUnhex(p[1])
+		if err != nil || !okn || strings.HasPrefix(p[0], "+") {
+			return Result{Out: "bad-op"}
+		}
+		ps = append(ps, pair{o, n})
+	}
+	res := Result{Nontrivial: len(ps) >= 2, Tags: []string{"sid"}}
+	ids := make([]string, len(ps))
+	fmtOk := true
+	for i, p := range ps {
+		id := utils.CreateStreamId(p.index, p.org)
+		k := strings.Index(id, "-")
+		if k <= 0 {
+			fmtOk = false
+			ids[i] = id
+			continue
+		}
+		if sh, err := strconv.Atoi(id[:k]); err != nil || sh < 0 || sh >= utils.MAX_SHARDS {
+			fmtOk = false
+		}
+		ids[i] = id[k+1:] // shard aside
+		if ids[i] != fmt.Sprintf("%d-%d", p.org, xxhash.Sum64String(p.index)) {
+			fmtOk = false
+		}
+	}
+	cls := make([]string, len(ps))
+	for i := range ps {
+		first := i
+		for j := 0; j < i; j++ {
+			if ids[j] == ids[i] {
+				first = j
+				break
+			}
+		}
+		cls[i] = strconv.Itoa(first)
+		if first != i && ps[first] != ps[i] {
+			res.Fails = append(res.Fails, PropFail{Sig: "stream-id/preimage-collision", Msg: fmt.Sprintf("CreateStreamId gives (org %d, index %q) and (org %d, index %q) the same stream id %q: the two would share one open segment store", ps[first].org, ps[first].index, ps[i].org, ps[i].index, ids[i])})
+		}
+	}
+	f := "ok"
+	if !fmtOk {
+		f = "other"
+	}
+	res.Out = fmt.Sprintf("fmt=%s c=%s", f, strings.Join(cls, ","))
+	return res
+}
+
 // ---------------------------------------------------------------- generator
 
 var tnPool = []string{
@@ -976,14 +1049,68 @@ func tnGenSel(r *rand.Rand) string {
 	base := []string{"logs", "logs2", "log", "logs.2024", "a", ""}
 	nb := 2 + r.Intn(3) // few distinct names per case so that orgs and queries collide on them
 	pick := func() string { return base[r.Intn(nb)] }
+	pickNamed := func() string {
+		if n := pick(); n != "" {
+			return n
+		}
+		return "logs"
+	}
 	org := r.Intn(3)
 	qlo := uint64(r.Intn(50))
 	qhi := qlo + uint64(r.Intn(60))
 	switch r.Intn(10) {
 	case 0:
 		qhi = qlo
-	case 1, 2, 3, 4:
+	case 1, 2, 3, 4, 5, 6:
 		qlo, qhi = 0, 1000
+	}
+	type so struct {
+		org   int
+		table string
+	}
+	// rotated segments: 1-3 "hot" (org, index) pairs with 1..7 segments each, the same index name held by
+	// other organisations with 0..3 segments, plus a few strays; then shuffled or kept in blocks (the
+	// per-table lists are sorted by latest timestamp, so the timestamps decide adjacency)
+	var owners []so
+	var ds []string
+	nhot := 1 + r.Intn(3)
+	for h := 0; h < nhot; h++ {
+		hot := so{r.Intn(3), pickNamed()}
+		for i, n := 0, 1+r.Intn(7); i < n; i++ {
+			owners = append(owners, hot)
+		}
+		for o := 0; o < 3; o++ {
+			if o != hot.org && r.Intn(2) == 0 {
+				for i, n := 0, 1+r.Intn(3); i < n; i++ {
+					owners = append(owners, so{o, hot.table})
+				}
+			}
+		}
+		if r.Intn(3) != 0 {
+			ds = append(ds, fmt.Sprintf("%d:%s", hot.org, tnHex(hot.table)))
+		}
+	}
+	for i, n := 0, r.Intn(4); i < n; i++ {
+		owners = append(owners, so{r.Intn(3), pick()})
+	}
+	if len(owners) > 24 {
+		owners = owners[:24]
+	}
+	blocks := r.Intn(2) == 0 // blocks: segments of one (org,index) are neighbours in time; else interleaved
+	if !blocks {
+		r.Shuffle(len(owners), func(i, j int) { owners[i], owners[j] = owners[j], owners[i] })
+	}
+	var rs []string
+	for i, ow := range owners {
+		lo := uint64(5 * i)
+		hi := lo + uint64(1+r.Intn(4))
+		if r.Intn(6) == 0 { // equal latest timestamps
+			hi = lo + 2
+		}
+		rs = append(rs, fmt.Sprintf("%d:%d:%s:%d:%d", i+1, ow.org, tnHex(ow.table), lo, hi))
+	}
+	if r.Intn(8) == 0 {
+		ds = append(ds, fmt.Sprintf("%d:%s", r.Intn(3), tnHex(pickNamed())))
 	}
 	var names []string
 	nn := 1 + r.Intn(3)
@@ -991,30 +1118,62 @@ func tnGenSel(r *rand.Rand) string {
 		nn = 0
 	}
 	for i := 0; i < nn; i++ {
-		names = append(names, tnHex(pick()))
-	}
-	seg := func(k int) string {
-		lo := uint64(r.Intn(100))
-		hi := lo + uint64(r.Intn(40))
-		return fmt.Sprintf("%d:%d:%s:%d:%d", k, r.Intn(3), tnHex(pick()), lo, hi)
-	}
-	var rs, us, ds []string
-	for i, n := 0, r.Intn(9); i < n; i++ {
-		rs = append(rs, seg(i+1))
-	}
-	for i, n := 0, r.Intn(7); i < n; i++ {
-		us = append(us, seg(i+1))
-	}
-	if r.Intn(3) == 0 {
-		for i, n := 0, 1+r.Intn(2); i < n; i++ {
-			d := pick()
-			if d == "" {
-				d = "logs"
-			}
-			ds = append(ds, fmt.Sprintf("%d:%s", r.Intn(3), tnHex(d)))
+		if len(owners) > 0 && r.Intn(3) != 0 {
+			names = append(names, tnHex(owners[r.Intn(len(owners))].table))
+		} else {
+			names = append(names, tnHex(pick()))
 		}
 	}
+	var us []string
+	for i, n := 0, r.Intn(7); i < n; i++ {
+		lo := uint64(r.Intn(100))
+		hi := lo + uint64(r.Intn(40))
+		us = append(us, fmt.Sprintf("%d:%d:%s:%d:%d", i+1, r.Intn(3), tnHex(pick()), lo, hi))
+	}
+	if len(owners) > 0 && r.Intn(2) == 0 {
+		org = owners[r.Intn(len(owners))].org
+	}
 	return fmt.Sprintf("tn sel %d %d %d N=%s R=%s U=%s D=%s", org, qlo, qhi, strings.Join(names, ","), strings.Join(rs, ","), strings.Join(us, ","), strings.Join(ds, ","))
+}
+
+// adversarial (org, index) pairs for the stream id: every way of cutting a digit string between the decimal
+// organisation id and a digit-prefixed index name, separators inside names, negative organisations
+func tnGenSid(r *rand.Rand) string {
+	var ps []string
+	add := func(o int64, n string) { ps = append(ps, fmt.Sprintf("%d:%s", o, tnHex(n))) }
+	for f, nf := 0, 1+r.Intn(3); f < nf; f++ {
+		nd := 2 + r.Intn(4)
+		d := make([]byte, nd)
+		for i := range d {
+			d[i] = byte('0' + r.Intn(10))
+		}
+		if d[0] == '0' {
+			d[0] = '1'
+		}
+		base := []string{"app", "-logs", "logs", "", "-", "7-logs", "x-1", ".2024"}[r.Intn(8)]
+		for cut := 1; cut <= nd; cut++ {
+			o, _ := strconv.ParseInt(string(d[:cut]), 10, 64)
+			add(o, string(d[cut:])+base)
+			if r.Intn(6) == 0 {
+				add(-o, string(d[cut:])+base)
+			}
+			if r.Intn(6) == 0 {
+				add(o, "-"+string(d[cut:])+base)
+			}
+		}
+	}
+	for i, n := 0, r.Intn(4); i < n; i++ {
+		add(int64(r.Intn(30)), tnRandName(r))
+	}
+	if len(ps) > 1 && r.Intn(3) == 0 { // a genuine repetition
+		ps = append(ps, ps[r.Intn(len(ps))])
+	}
+	if r.Intn(20) == 0 {
+		add(9223372036854775807, "max")
+		add(-9223372036854775808, "min")
+	}
+	r.Shuffle(len(ps), func(i, j int) { ps[i], ps[j] = ps[j], ps[i] })
+	return "tn sid P=" + strings.Join(ps, ",")
 }
 
 func tnGenDel(r *rand.Rand) string {
@@ -1041,16 +1200,18 @@ func genTenant(r *rand.Rand, n int, tier string) []string {
 		switch k := r.Intn(100); {
 		case k < 50:
 			out = append(out, tnGenExpand(r))
-		case k < 72:
+		case k < 68:
 			out = append(out, tnGenGlob(r))
-		case k < 90:
+		case k < 86:
 			out = append(out, tnGenSel(r))
-		case k < 97:
+		case k < 92:
 			out = append(out, tnGenDel(r))
+		case k < 97:
+			out = append(out, tnGenSid(r))
 		case k < 98: // outside the modelled fragment
 			out = append(out, fmt.Sprintf("tn glob %s %s", tnHex([]string{"a/b*", "l*#", "\"l*\"", "l*\tx", "l*/x"}[r.Intn(5)]), tnHex("logs")))
 		default: // malformed
-			out = append(out, []string{"tn", "tn expand 0 1 zz T= A=", "tn glob 6c", "tn sel 0 1 2 N= R=1:0:6c:1 U= D=", "tn del 9 6c T=", "tn expand 7 0 6c T= A=", "tn frob", "tn sel 0 1 2 N= R=1:0:6c:1:2,1:0:6c:1:2 U= D="}[r.Intn(8)])
+			out = append(out, []string{"tn", "tn expand 0 1 zz T= A=", "tn glob 6c", "tn sel 0 1 2 N= R=1:0:6c:1 U= D=", "tn del 9 6c T=", "tn expand 7 0 6c T= A=", "tn frob", "tn sel 0 1 2 N= R=1:0:6c:1:2,1:0:6c:1:2 U= D=", "tn sid P=1", "tn sid P=x:6c"}[r.Intn(10)])
 		}
 	}
 	return out
